@@ -16,7 +16,7 @@ U(W, R, N, K, Q, m) == [W |-> W, R |-> R, N |-> N, K |-> K, Q |-> Q, maxv |-> m]
 
 CfgQuick == {Cfg(1, 0, 1), Cfg(1, 2, 1), Cfg(1, 1, 0), Cfg(1, 1, 2), Cfg(1, 1, 1), Cfg(2, 1, 1)}
 CfgDeep == CfgQuick \cup {Cfg(1, 3, 1), Cfg(1, 4, 1), Cfg(1, 1, 3), Cfg(1, 1, 4), Cfg(1, 2, 2)}
-CfgLimits == {Cfg(1, 0, 1), Cfg(1, 2, 1), Cfg(1, 1, 0), Cfg(1, 1, 2)}     \* limit layer only (C08)
+CfgLimits == {Cfg(1, 0, 1), Cfg(1, 2, 1), Cfg(1, 1, 0), Cfg(1, 1, 2), Cfg(2, 1, 1)}     \* limit layer only (C08)
 CfgFault == {Cfg(1, 1, 2)}
 
 MCUniv(c) ==
